@@ -57,10 +57,17 @@ def abort_at(point, fired):
         setattr(Module, name, orig)
 
 
+class PersistFailed(Exception):
+    """pickle / deepcopy of the module raised: a failure of the system under test (C18), not of the harness."""
+
+
 def persist(m, how):
     """'Crash and restart with only durable state': the module survives only as pickle bytes / a deep copy."""
-    if how == "pickle":
-        return pickle.loads(pickle.dumps(m))
-    if how == "deepcopy":
+    if how not in ("pickle", "deepcopy"):
+        raise ValueError(how)
+    try:
+        if how == "pickle":
+            return pickle.loads(pickle.dumps(m))
         return copy.deepcopy(m)
-    raise ValueError(how)
+    except Exception as e:  # noqa: BLE001
+        raise PersistFailed(f"{how} of the module raised {type(e).__name__}: {str(e)[:200]}") from e
